@@ -28,6 +28,8 @@ def build(H, tier, seed):
     T.involution_lemmas(H, tier)
     from contracts import access_c as A
     A.vc_grade(H)
+    from contracts import inverse_c as I
+    I.vc_unary_generic(H, tier, only_ops=('neg', 'reverse', 'involute', 'conjugate'))
     A.vc_grade_layouts(H)
     from contracts import dispatch_c as D
     D.vc_binary_chain(H)
